@@ -176,7 +176,9 @@ RemoveGroupTasks(mm, ts) ==
   IF ts = <<>> THEN mm
   ELSE LET t == Head(ts)
            dead == \A g \in SeqToSet(TGroups(t)) : ~mm.gn[g].present
-       IN RemoveGroupTasks(IF dead THEN RemoveTask(mm, t) ELSE mm, Tail(ts))
+           \* _abort_task (repair of F36): a task that lost all its groups is aborted - if its computation is still
+           \* running its gate is cancelled, so the environment cannot settle it any more
+       IN RemoveGroupTasks(IF dead THEN RemoveTask([mm EXCEPT !.running = @ \ {t}], t) ELSE mm, Tail(ts))
 RECURSIVE RemoveGroups(_, _)
 RemoveGroups(mm, work) ==   \* depth-first, children right after their parent
   IF work = <<>> THEN mm
